@@ -178,6 +178,56 @@ def run(ctx, b, broken):
             ctx.known(kf[0]["id"], kf[0]["what"])
         elif ratio > 3.0 and b_ > 0.3:
             su.violation(large[name][:300] + " ...", f"family {name}: CPU time grows from {a:.2f}s (k={K * MULT[name]}) to {b_:.2f}s (k={2 * K * MULT[name]}), ratio {ratio:.1f}: more than doubling (limit 3.0)", {"family": name, "k": K})
+    # flat lists with very cheap items: the per-item cost at N items must stay what it is at N/40 items (a list copied per item,
+    # a membership test on a growing list, ... only show when the list has tens of thousands of entries)
+    NF = 100000 if ctx.tier == "quick" else 200000
+    def flat(n_):
+        return {
+            "flat-initializers": "int a[] = {" + "1," * n_ + "};",
+            "flat-call-arguments": "void f(void){ g(" + ",".join(["1"] * n_) + "); }",
+            "flat-enumerators": "enum E {" + ",".join(f"K{i}" for i in range(n_)) + "};",
+            "flat-declarators": "int " + ",".join(f"v{i}" for i in range(n_)) + ";",
+            "flat-empty-statements": "void f(void){" + ";" * n_ + "}",
+            "flat-members": "struct S {" + "int m;" * n_ + "};",
+            "flat-parameters": "void f(" + ",".join(["int"] * n_) + ");",
+            "flat-comma-expression": "void f(void){ x = (" + ",".join(["1"] * n_) + "); }",
+            "flat-declarations": "int x;" * n_,
+            "flat-string-pieces": "char *s = " + '"a"' * n_ + ";",
+        }
+    fnames = list(flat(1))
+    fsmall, flarge = flat(NF // 40), flat(NF)
+    ft = cpu_times([{"t": fsmall[n_], "noprof": True} for n_ in fnames] + [{"t": flarge[n_], "noprof": True, "runs": 1} for n_ in fnames])
+    ctx.notes["thresholds"]["flat_per_item_cost_ratio_max"] = 3.0
+    for i, name in enumerate(fnames):
+        (a, _ca), (b_, _cb) = ft[i], ft[i + len(fnames)]
+        ctx.evaluations += 1
+        ctx.count("flat-family:" + name, int(1000 * max(b_, 0)))
+        ctx.nontriv(("flat", name))
+        kf = [f for f in ctx.findings if f.get("timedfamily") == name]
+        if a == -3.0 or b_ == -3.0:
+            ctx.count("timed-family-not-measured-after-two-over-budget")
+            continue
+        if a == -2.0 or b_ == -2.0:
+            if kf:
+                ctx.known(kf[0]["id"], kf[0]["what"])
+            else:
+                su.violation(flarge[name][:200] + " ...", f"family {name}: parsing {NF} list items uses more than 25 s of CPU time (about 2 s when the cost is linear)", {"family": name, "k": NF})
+            continue
+        if a < 0 or b_ < 0:
+            su.violation(fsmall[name][:200], f"flat family {name} is not accepted")
+            continue
+        per_small, per_large = max(a, 0.004) / (NF // 40), b_ / NF
+        ratio = per_large / per_small
+        if ratio > 3.0 and b_ > 1.0:
+            for _ in range(2):
+                (a2, _c1), (b2, _c2) = cpu_times([{"t": fsmall[name], "noprof": True}, {"t": flarge[name], "noprof": True}])
+                if a2 > 0 and b2 > 0:
+                    ratio = min(ratio, (b2 / NF) / (max(a2, 0.004) / (NF // 40)))
+        if ratio > 3.0 and b_ > 1.0:
+            if kf:
+                ctx.known(kf[0]["id"], kf[0]["what"])
+            else:
+                su.violation(flarge[name][:200] + " ...", f"family {name}: the CPU time per list item grows {ratio:.1f}-fold between {NF // 40} and {NF} items ({a:.3f}s and {b_:.2f}s): not linear (limit 3.0)", {"family": name, "k": NF})
     # lexer regex families (wall clock, wide margin)
     from lexcorr import impl_lex
     def lits_of(n):
